@@ -1395,11 +1395,18 @@ impl<Q: QueueApi> State<Q> {
             for g in &got {
                 match it.next() {
                     Some((k, e)) if *k == g.0 && e.ord == g.2 => {
+                        if e.payload != g.1 {
+                            // the stored item VALUE was replaced (C12); if the priority object was
+                            // replaced along with it, that is a C03 matter as well
+                            let mut v = mon.payload(format!("stored item {} has payload {} expected {}", g.0, g.1, e.payload));
+                            if e.tag != g.3 {
+                                v.props.push("C03");
+                                v.detail.push_str(" (and its priority object was replaced too)");
+                            }
+                            return Err(v);
+                        }
                         if e.tag != g.3 {
                             return Err(mon.tag(format!("stored priority object of id {} has tag {} expected {} (ord equal: {})", g.0, g.3, e.tag, e.ord)));
-                        }
-                        if e.payload != g.1 {
-                            return Err(mon.payload(format!("stored item {} has payload {} expected {}", g.0, g.1, e.payload)));
                         }
                     }
                     _ => {
